@@ -157,6 +157,35 @@ func runC04(t *testing.T, rc *core.RunCtx) {
 				}
 			}
 		}
+		// duplicate suppression: an args-less mutation that is answered Executed
+		// while the machine is busy was taken for a duplicate, and is one only
+		// if its twin is the last thing queued (anything queued after the twin
+		// may undo it, directly or through relations)
+		for _, r := range w.ops {
+			if r.queueB == nil || r.res != am.Executed || r.panicked != "" {
+				continue
+			}
+			var last *am.Mutation
+			for _, q := range r.queueB {
+				if !q.IsCheck {
+					last = q
+				}
+			}
+			if last == nil {
+				continue // nothing queued: executed on the spot, or a no-op
+			}
+			want := map[opKind]am.MutationType{opAdd: am.MutationAdd, opRemove: am.MutationRemove, opSet: am.MutationSet}[r.op.kind]
+			twin := last.Type == want && len(last.Args) == 0 && sameSet(idxNames(w.all, last.Called), r.op.states)
+			multi := false
+			for _, st := range r.op.states {
+				multi = multi || w.eff[st].Multi
+			}
+			if !twin && !multi && len(w.txs[r.txB:r.txA]) == 0 {
+				s.Probe("executed-while-queued")
+				s.Fail("C04/lost-as-duplicate", "%s %s was answered Executed without being processed while %d mutations were queued, the last of them %s%v: not its twin, so it was not a duplicate", r.task, r.op, len(r.queueB), last.Type, idxNames(w.all, last.Called))
+				return
+			}
+		}
 		for _, pd := range pends {
 			select {
 			case <-pd.ch:
@@ -176,4 +205,15 @@ func runC04(t *testing.T, rc *core.RunCtx) {
 			}
 		}
 	})
+}
+
+// idxNames maps state indexes to names.
+func idxNames(all am.S, idx []int) am.S {
+	var out am.S
+	for _, i := range idx {
+		if i >= 0 && i < len(all) {
+			out = append(out, all[i])
+		}
+	}
+	return out
 }
